@@ -34,7 +34,7 @@ MANIFEST = {
             "leaves the source bit-identical, returns a new object sharing no memory; inplace=True returns self and "
             "produces bit-identical coordinates. Separately Topology.find_molecules() must equal the union-find connected components "
             "for every system and for every labelled bond graph on 1..5 atoms (1099 graphs x 2 bond-list orders). Multi-anchor systems with real element types: two anchors (O,H,H + C,H,H,H; O,H,H + H,H,O) and three "
-            "anchors (+ N,H), one ion, every order of the explicit anchor list (quick: the 3 cyclic orders for three anchors), "
+            "anchors (+ N,H), one ion, every order of the explicit anchor list (quick: the 3 cyclic orders for three anchors, complete 27^2 placements for one of them and the 7^2 face placements for the other two), "
             "and guessed anchors with 18 (thorough also 3 anchors with 27) extra ions; scatter = every placement of the "
             "non-first molecules in the images {-1,0,1}^3 relative to the first (27, 27^2 = 729; guessed 3-anchor system 7^2 "
             "face images); image_molecules with make_whole True and False; additionally judged: every ANCHOR molecule gets one "
@@ -46,7 +46,7 @@ MANIFEST = {
             "bonded-pair oracle; the argument must not be modified. Tiny cells: six cells with edges 0.4-0.7 nm (3 "
             "orthorhombic, monoclinic, hexagonal, triclinic; thorough + unreduced forms; bond = 0.2 x smallest width) for the "
             "di-/tri-atomic systems (thorough + 4-star, 6-atom mix): besides the many-frame trajectory every scatter frame "
-            "(27^2; 3 atoms: atom 0 fixed x 27^2) is also re-imaged ALONE as a 1-frame trajectory, must be bit-identical to "
+            "(27^2; 3 atoms: atom 0 fixed x 27^2) is also re-imaged ALONE as a 1-frame trajectory (quick: not for make_whole=False), must be bit-identical to "
             "its result inside the big trajectory and is judged by the oracle - decisions taken over all frames of a "
             "trajectory cannot hide behind other frames. History layer: "
             "ONE Topology object shared by successive trajectories, every op sequence of length 2..3 (thorough 4 on 3 cell "
@@ -760,7 +760,7 @@ def run_item(arg):
         fsel = np.arange(F) if F <= 800 else np.where(np.all(sc[:, :3] == 0, axis=1))[0]
         top1 = _topology(sysv)
         for api in apis:
-            if api not in default_result:
+            if api not in default_result or (quick and api.endswith("mw=0")):
                 continue
             got = np.zeros((len(fsel), n, 3), np.float32)
             for q, f in enumerate(fsel):
